@@ -34,6 +34,8 @@ runner() {
   awk -v k=$k -v K=$K 'NR%K==k%K' $JOBS | while read kind id prop caught patch; do
     git -C $WT apply $patch 2>/dev/null || { echo "$kind $id $prop expected=$caught :: PATCH-DOES-NOT-APPLY" >> $OUT/results.$k; continue; }
     r=$(cd $VC && VERIF_REPO=$WT VERIF_SCRATCH=$SC ./check $prop --tier quick 2>&1 | grep -E "^VIOLATION|^UNDECIDED|undecided:|^OK" | tr '\n' ' ')
+    # an empty verdict means the check itself did not finish (seen twice under heavy load): run it once more and keep its tail
+    if [ -z "$r" ]; then r=$(cd $VC && VERIF_REPO=$WT VERIF_SCRATCH=$SC ./check $prop --tier quick 2>&1 | tee $OUT/retry.$k.log | grep -E "^VIOLATION|^UNDECIDED|undecided:|^OK" | tr '\n' ' '); [ -z "$r" ] && r="NO-VERDICT $(tail -2 $OUT/retry.$k.log | tr '\n' ' ')"; fi
     git -C $WT checkout -- . ; git -C $WT clean -fdq
     echo "$kind $id $prop expected=$caught :: $r" >> $OUT/results.$k
   done
